@@ -733,6 +733,9 @@ func (c *SpecCtx) indexExpr(x *ast.IndexExpr, sn *SpecNode) (Value, types.Type) 
 		return mapLeaves(av.Elem, func(a *Node) *Node { return Select(a, idx) }), u.Elem()
 	case *types.Basic:
 		idx := c.coerce(iv, it, types.Typ[types.Int])
+		if nativeStrings {
+			return App("str.to_code", "Int", App("str.at", "String", base.(*Node), idx)), types.Typ[types.Uint8]
+		}
 		return Select(e.strChars(base.(*Node)), idx), types.Typ[types.Uint8]
 	case *types.Map:
 		var k *Node
